@@ -2,7 +2,8 @@
 
 correspondence: closed-form cash overrides and the default search (IsoelasticLoss, EntropicLoss via
 the base class, a user subclass, OCE) vs the Lean model (Model/Risk.lean: cashNeg, entropicLossCash,
-cashDefault; Float carrier), and Hedger.price vs `priceOf` on the same simulated paths.
+cashDefault; Float carrier), and Hedger.price vs `priceOf` on the same simulated paths; Hedger.price / Hedger.compute_loss vs the
+composed model `hedgerPriceN` / `hedgerLossN` (Model/HedgerPrice.lean, op "hedger_price": paths -> hedgerPL -> criterion / -cash -> ensemble mean).
 predicate (real code): criterion(constant sample at cash) == criterion(sample), min <= cash <= max,
 cash <= mean for risk-averse criteria, QCVaR cash = -risk, price = -cash(portfolio - payoff) with the portfolio both from
 Hedger.compute_portfolio and written out (hedge gains minus proportional costs at the instrument's rate; linear and Black-Scholes hedges),
@@ -12,6 +13,209 @@ import math
 from fractions import Fraction as F
 from common import *  # noqa
 from risk_common import *  # noqa
+
+
+# ---- Hedger.price / compute_loss against the composed model (Lean op "hedger_price") -------------------------------------
+
+_HP_W = [F(-1), F(-1, 2), F(-1, 4), F(0), F(1, 4), F(1, 2), F(1), F(3, 4)]
+_HP_CLAUSES = [[], [], [["cap", F(1, 64)]], [["cap", F(1, 32)]], [["affine", F(1), F(1, 4)]], [["affine", F(1), F(-1, 2)]],
+               [["cap", F(1, 64)], ["affine", F(1), F(1)]], [["affine", F(1), F(1, 4)], ["cap", F(17, 64)]],
+               [["affine", F(2), F(1, 8)], ["floor", F(9, 64)]], [["floor", F(1, 128)], ["affine", F(1), F(-1, 4)]]]
+
+
+def gen_hedger_price(g, tier):
+    """one Hedger.price scenario; everything the composed model needs except the simulated buffers"""
+    which = g.weighted([("es", 3), ("erm", 2), ("eloss", 2)])
+    nh = g.choice([1, 1, 2, 2, 3])
+    hedges = [dict(kind="primary", cost=F(g.choice([0, 1, 2, 3, 8]), 512))]
+    for _ in range(nh - 1):
+        hedges.append(dict(kind=g.choice(["primary", "listed", "listed", "self"]), cost=F(g.choice([0, 1, 2, 3, 8]), 512),
+                           a=g.choice([F(1), F(2), F(1, 2)]), b=g.choice([F(0), F(1), F(-1, 4)])))
+    model = g.weighted([("linear", 3), ("relu", 2), ("prev", 3), ("naked", 0.5), ("badwidth", 0.4)])
+    nin = 1 + nh if model == "prev" else 2
+    nout = nh + 1 if model == "badwidth" else nh
+    c = dict(which=which, param=g.choice([0.5, 1.0, 2.0]) if which != "es" else g.choice([0.1, 0.3, 0.5, 1.0]),
+             hedges=hedges, model=model, w=[[g.choice(_HP_W) for _ in range(nin)] for _ in range(nout)],
+             b=[g.choice([F(0), F(1, 2), F(-1, 4), F(1, 8)]) for _ in range(nout)],
+             log=(which != "es" and g.chance(0.3)),
+             deriv=g.choice(["european", "european", "european_put", "lookback"]), strike=g.choice([0.9, 1.0, 1.0, 1.1]),
+             steps=g.choice([2, 3, 5]), sigma=g.choice([0.2, 0.3, 0.6]), clauses=g.choice(_HP_CLAUSES),
+             n_paths=g.choice([1, 2, 3, 5, 8, 20] if tier == "quick" else [1, 2, 3, 5, 8, 20, 50]),
+             n_times=g.choice([1, 1, 2, 3]), seed=g.randint(0, 10 ** 6))
+    return c
+
+
+def build_hedger_price(torch, nn, c):
+    """the real objects: (hedger, derivative, hedge list, the derivative's underlier, [other underliers by hedge index])"""
+    from pfhedge.instruments import BrownianStock, EuropeanOption, LookbackOption
+    from pfhedge.nn import Hedger, Naked
+    dt = torch.float64
+    stock = BrownianStock(cost=float(c["hedges"][0]["cost"]), sigma=c["sigma"], dtype=dt)
+    mat = c["steps"] / 250
+    if c["deriv"] == "lookback":
+        deriv = LookbackOption(stock, strike=c["strike"], maturity=mat)
+    else:
+        deriv = EuropeanOption(stock, call=(c["deriv"] == "european"), strike=c["strike"], maturity=mat)
+    for i, cl in enumerate(c["clauses"]):
+        if cl[0] == "cap":
+            deriv.add_clause(f"c{i}", lambda d, p, v=float(cl[1]): p.clamp(max=v))
+        elif cl[0] == "floor":
+            deriv.add_clause(f"c{i}", lambda d, p, v=float(cl[1]): p.clamp(min=v))
+        else:
+            deriv.add_clause(f"c{i}", lambda d, p, a=float(cl[1]), b=float(cl[2]): a * p + b)
+    hedge, others = [stock], {}
+    for i, h in enumerate(c["hedges"][1:], start=1):
+        if h["kind"] == "primary":
+            s = BrownianStock(cost=float(h["cost"]), sigma=0.25, dtype=dt)
+            others[i] = s
+            hedge.append(s)
+        else:
+            s = stock if h["kind"] == "self" else BrownianStock(sigma=0.25, dtype=dt)
+            if h["kind"] == "listed":
+                others[i] = s
+            o = EuropeanOption(s, maturity=mat)
+            o.list(lambda d, a=float(h["a"]), b=float(h["b"]): d.ul().spot * a + b, cost=float(h["cost"]))
+            hedge.append(o)
+    crit = {"es": nn.ExpectedShortfall, "erm": nn.EntropicRiskMeasure, "eloss": nn.EntropicLoss}[c["which"]](c["param"])
+    nh = len(hedge)
+    if c["model"] == "naked":
+        model, inputs = Naked(nh), ["moneyness"]
+    else:
+        inputs = ["log_moneyness" if c["log"] else "moneyness", "prev_hedge" if c["model"] == "prev" else "time_to_maturity"]
+        lin = torch.nn.Linear(len(c["w"][0]), len(c["w"]), dtype=dt)
+        with torch.no_grad():
+            lin.weight.copy_(torch.tensor([[float(x) for x in r] for r in c["w"]], dtype=dt))
+            lin.bias.copy_(torch.tensor([float(x) for x in c["b"]], dtype=dt))
+        model = torch.nn.Sequential(lin, torch.nn.ReLU()) if c["model"] == "relu" else lin
+    return Hedger(model, inputs, criterion=crit), deriv, hedge, stock, others
+
+
+def hedger_price_req(c, k, dt_, und_batches, other_rows):
+    """the whole scenario for the Lean op "hedger_price" (model `hedgerPriceN` / `hedgerLossN`): the simulated buffers (exact values of the
+    float64 entries) and the harness's own description of module, features, instruments, cost rates, payoff and clauses"""
+    rat = c["which"] == "es"
+    num = (lambda x: rat_str(F(x))) if rat else (lambda x: float_bits(float(x)))
+    nums = lambda xs: [num(x) for x in xs]
+    nh = len(c["hedges"])
+    if c["model"] == "naked":
+        feats, model = [["moneyness", False]], {"kind": "naked", "h": nh}
+    else:
+        feats = [["moneyness", bool(c["log"])], ["prev_hedge"] if c["model"] == "prev" else ["time_to_maturity"]]
+        model = {"kind": "linear", "w": [nums(r) for r in c["w"]], "b": nums(c["b"]), "relu": c["model"] == "relu"}
+    batches = []
+    for und in und_batches:
+        paths = []
+        for n, row in enumerate(und):
+            hs = [{"kind": "primary", "row": nums(row), "cost": num(c["hedges"][0]["cost"])}]
+            for i, h in enumerate(c["hedges"][1:], start=1):
+                if h["kind"] == "primary":
+                    hs.append({"kind": "primary", "row": nums(other_rows[i][n]), "cost": num(h["cost"])})
+                else:
+                    hs.append({"kind": "listed", "a": num(h["a"]), "b": num(h["b"]), "cost": num(h["cost"]),
+                               "row": nums(row if h["kind"] == "self" else other_rows[i][n])})
+            market = {"spot": nums(row), "variance": [], "volatility": [], "listed": [], "dt": num(dt_), "strike": num(c["strike"]),
+                      "oracle": []}
+            paths.append({"market": market, "hedges": hs})
+        batches.append(paths)
+    payoff = {"kind": "lookback" if c["deriv"] == "lookback" else "european", "call": c["deriv"] != "european_put", "strike": num(c["strike"])}
+    adds = [[f"c{i}", [cl[0]] + nums(cl[1:])] for i, cl in enumerate(c["clauses"])]
+    return {"op": "hedger_price", "carrier": "rat" if rat else "float",
+            "criterion": ["es", k] if rat else [c["which"], num(c["param"])],
+            "features": feats, "model": model, "payoff": payoff, "adds": adds, "first": True, "batches": batches}
+
+
+def _small_hp(c):
+    d = {k: c[k] for k in ("which", "param", "model", "log", "deriv", "strike", "steps", "sigma", "n_paths", "n_times", "seed")}
+    d["hedges"] = [{k: (rat_str(v) if isinstance(v, F) else v) for k, v in h.items()} for h in c["hedges"]]
+    d["w"], d["b"] = enc_rat(c["w"]), enc_rat(c["b"])
+    d["clauses"] = [[cl[0]] + enc_rat(cl[1:]) for cl in c["clauses"]]
+    return d
+
+
+def hedger_price_section(ctx, torch, nn):
+    """Hedger.price / Hedger.compute_loss against the composed model: the harness freezes the torch seed, lets the Hedger simulate and price,
+    re-creates the same simulations under the same seed to read the market of every batch, and sends those buffers with its own description
+    of the hedger to the model.  Expected shortfall: exact rational value of the model on the exact values of the float64 buffers (only the
+    implementation's own arithmetic rounds); entropic criteria: IEEE double replica."""
+    g = ctx.gen
+    dt = torch.float64
+    reqs, metas = [], []
+    for it in range(48 if ctx.tier == "quick" else 480):
+        c = gen_hedger_price(g, ctx.tier)
+        small = _small_hp(c)
+        try:
+            hedger, deriv, hedge, stock, others = build_hedger_price(torch, nn, c)
+            # instruments that the derivative does not simulate keep the paths they are given here, for every batch
+            torch.manual_seed(c["seed"] + 1)
+            for s in others.values():
+                s.simulate(n_paths=c["n_paths"], time_horizon=deriv.maturity)
+            other_rows = {i: tensor_to_fracs(s.spot) for i, s in others.items()}
+        except Exception as e:  # noqa  (constructing the scenario is harness code)
+            raise InternalError("cannot build Hedger.price scenario: " + repr(e))
+        N, nt = c["n_paths"], c["n_times"]
+        if c["which"] == "es":
+            pn = F(c["param"]) * N
+            if abs(pn - round(pn)) <= F(1, 10 ** 9) and pn != round(pn):
+                ctx.stats["hedger_price:skipped_ceil_ambiguous"] += 1
+                continue
+        k = math.ceil(c["param"] * N) if c["which"] == "es" else None
+        torch.manual_seed(c["seed"])
+        st_p, price, _ = call_impl(hedger.price, deriv, hedge=hedge, n_paths=N, n_times=nt)
+        torch.manual_seed(c["seed"])
+        st_l, loss, _ = call_impl(hedger.compute_loss, deriv, hedge=hedge, n_paths=N, n_times=nt, enable_grad=False)
+        # the same simulations once more, to read the market of every batch
+        torch.manual_seed(c["seed"])
+        und_batches = []
+        for _ in range(nt):
+            deriv.simulate(n_paths=N)
+            und_batches.append(tensor_to_fracs(stock.spot))
+        for i, s in others.items():
+            if tensor_to_fracs(s.spot) != other_rows[i]:
+                raise InternalError("a hedging instrument that the derivative does not simulate changed its paths")
+        ctx.case(small, c["model"] != "badwidth", tag="hedger_price")
+        ctx.traces += 1
+        for kk in ("which", "model", "deriv"):
+            ctx.stats[f"hedger_price:{kk}={c[kk]}"] += 1
+        ctx.stats[f"hedger_price:H={len(hedge)}"] += 1
+        ctx.stats[f"hedger_price:n_times={nt}"] += 1
+        ctx.stats[f"hedger_price:clauses={'+'.join(cl[0] for cl in c['clauses']) or 'none'}"] += 1
+        reqs.append(hedger_price_req(c, k, F(stock.dt), und_batches, other_rows))
+        metas.append((c, small, (st_p, float(price) if st_p == "ok" else price), (st_l, float(loss) if st_l == "ok" else loss)))
+    try:
+        outs = ctx.driver(reqs)
+    except DriverBroken as e:
+        ctx.ties_broken.append({"kind": "driver", "detail": str(e)[:1500]})
+        return
+    for (c, small, ip, il), mo in zip(metas, outs):
+        if not isinstance(mo, dict) or "price" not in mo:
+            ctx.disagree("hedger_price", small, {"price": ip, "loss": il}, mo)
+            continue
+        rat = c["which"] == "es"
+        dec = (lambda v: F(v)) if rat else float_of_bits
+        # expected shortfall: the model value is exact; the implementation rounds in the features, the hedge, the P&L sums and the mean of the
+        # k worst outcomes: a few dozen operations on numbers of size <= ~4.  Entropic: the tolerance this file applies to the "erm" op.
+        tol = 1e-13 if rat else 1e-10
+        bad = []
+        for name, (st, v) in (("price", ip), ("loss", il)):
+            m = mo[name]
+            if st == "ok":
+                if "ok" not in m:
+                    bad.append(name)
+                    continue
+                mv = float(dec(m["ok"]))
+                if not (abs(v - mv) <= tol * max(1.0, abs(mv))):
+                    bad.append(name)
+            elif m.get("err") != v:
+                bad.append(name)
+        ctx.stats["hedger_price_compared"] += 1
+        if bad:
+            ctx.stats["hedger_price_disagreements"] += 1
+            show = lambda m: (str(float(dec(m["ok"]))) if "ok" in m else m)
+            ctx.disagree("hedger_price", small | {"differs": bad}, {"price": ip, "loss": il},
+                         {"price": show(mo["price"]), "loss": show(mo["loss"]), "per_batch_prices": [show(x) for x in mo["prices"]],
+                          "per_batch_losses": [show(x) for x in mo["losses"]]},
+                         note="composed model hedgerPriceN / hedgerLossN (paths -> hedgerPL -> criterion / -cash -> ensemble mean) on the buffers "
+                              "simulated under the scenario's seed")
 
 
 def check(ctx):
@@ -233,7 +437,12 @@ def check(ctx):
             if st2 != "ok" or abs(float(price2) - (float(price) + k_shift)) > tolp * max(1.0, abs(exp)):
                 ctx.fail("adding a constant k to the payoff does not raise the price by exactly k", case, key=f"price:{which}:shift",
                          detail={"price": float(price), "price_shifted": float(price2) if st2 == "ok" else price2})
+    hedger_price_section(ctx, torch, nn)
     return ctx.finish(
         rule="criteria {EntropicRiskMeasure, EntropicLoss, IsoelasticLoss, ExpectedShortfall, QuadraticCVaR, user subclass and EntropicLoss forced "
              "through the default search} on (N,) and (N,M) samples incl. constants and ties, targets; Hedger.price with frozen seeds, n_times in "
-             "{1,2,3}, cost rates {0, 1e-3, 2^-9, 2^-6}, linear / Black-Scholes hedges, payoff shifts through a clause; every case non-trivial; distinct = sha1 of canonical case")
+             "{1,2,3}, cost rates {0, 1e-3, 2^-9, 2^-6}, linear / Black-Scholes hedges, payoff shifts through a clause; "
+             "Hedger.price and Hedger.compute_loss against the composed model hedgerPriceN / hedgerLossN (op hedger_price): H in 1..3 with primary / listed / "
+             "self-listed hedges and dyadic cost rates, linear / ReLU / prev_hedge / Naked modules, cap / floor / affine clauses, n_times 1..3, "
+             "expected shortfall exact on the rational values of the simulated float64 buffers, entropic criteria on the IEEE replica; "
+             "every case non-trivial except modules of the wrong width (error agreement); distinct = sha1 of canonical case")
